@@ -47,6 +47,7 @@ def gen_world(seed, tier):
     pool["G0"] = {"type": "graph", "v": gd}
     if use_cyc:
         pool["G1"] = {"type": "graph", "v": gc}
+    pool["G2"] = {"type": "graph", "v": gen.perturb(rng, gd)}       # a non-conserving weighting (for the flow-correction model)
     pool["oo0"] = {"type": "dict", "v": {}}
     oo1 = {}
     for k in rng.sample(["optimize_with_safe_paths", "optimize_with_safe_zero_edges", "optimize_with_greedy", "optimize_with_safe_sequences",
@@ -82,9 +83,26 @@ def gen_world(seed, tier):
     for m in range(nmodels):
         cyc = use_cyc and rng.random() < 0.45
         cname = rng.choice(CLASSES_CYC if cyc else CLASSES_DAG)
+        if rng.random() < 0.1:
+            cname = "MinErrorFlow"            # accepts any digraph
         gname = "G1" if cyc else "G0"
         g = gc if cyc else gd
         args = {"G": "@" + gname}
+        if cname == "MinErrorFlow":
+            if not cyc:
+                args["G"] = "@G2"
+            args["weight_type"] = rng.choice(["int", "float"])
+            if rng.random() < 0.6:
+                args["few_flow_values_epsilon"] = rng.choice([0.1, 0.5, 1.0])
+            if rng.random() < 0.5:
+                args["solver_options"] = "@so0"
+            if not cyc and rng.random() < 0.3:
+                args["error_scaling"] = "@es0"
+            ops.append({"op": "construct", "h": h, "class": cname, "args": args})
+            for s_ in ["solve"] + rng.sample(["get_solution", "get_solution", "get_objective_value", "solve", "solve"], rng.randint(1, 4)):
+                ops.append({"op": s_, "h": h})
+            h += 1
+            continue
         if cname.startswith("k"):
             args["k"] = max(1, len(g["routes"]) + rng.choice([0, 0, 1, -1]))
         if cname not in models.COVER_CLASSES:
@@ -209,6 +227,9 @@ def _defaults_snapshot():
 
 
 def _summ_solution(cname, sol):
+    if cname == "MinErrorFlow" and isinstance(sol, dict):
+        # no routes; which optimal correction comes back may differ between two solves (alternative optima), its error may not
+        return None
     if isinstance(sol, dict):
         key = "walks" if cname in models.CYCLIC_CLASSES else "paths"
         r = sol.get(key)
